@@ -96,7 +96,8 @@ theorem step_goodSt (U : Universe W) (pol : Policy) (st : State) (op : Op) (g : 
           · exact Or.inl (connect_has_of_fold h1)
           · exact Or.inr h1
         · have g0 : Good W st.chain (fun _ => False)
-              (if b.mtp < st.chain.mtp then markStale st.pool else st.pool) := by
+              (staleSpenders b (if b.mtp < st.chain.mtp then markStale st.pool else st.pool)) := by
+            apply staleSpenders_good
             split
             · exact markStale_good g.good
             · exact g.good
